@@ -2397,6 +2397,26 @@ evhttp_get_body(struct evhttp_connection *evcon, struct evhttp_request *req)
 {
 	const char *xfer_enc;
 
+	xfer_enc = evhttp_find_header(req->input_headers, "Transfer-Encoding");
+	if (req->kind == EVHTTP_REQUEST && xfer_enc != NULL) {
+		/* RFC 9112 6.1/6.3: we can only frame a request whose
+		 * Transfer-Encoding is exactly "chunked".  Anything else
+		 * (a list, a repeated field, or Content-Length next to it)
+		 * is rejected rather than guessing where the message ends. */
+		struct evkeyval *header;
+		int n_te = 0;
+		TAILQ_FOREACH(header, req->input_headers, next) {
+			if (!evutil_ascii_strcasecmp(header->key, "Transfer-Encoding"))
+				++n_te;
+		}
+		if (n_te > 1 ||
+		    evhttp_find_header(req->input_headers, "Content-Length") != NULL ||
+		    evutil_ascii_strcasecmp(xfer_enc, "chunked") != 0) {
+			evhttp_connection_fail_(evcon, EVREQ_HTTP_INVALID_HEADER);
+			return;
+		}
+	}
+
 	/* If this is a request without a body, then we are done */
 	if (req->kind == EVHTTP_REQUEST &&
 	    !evhttp_method_may_have_body_(evcon, req->type)) {
@@ -2404,7 +2424,6 @@ evhttp_get_body(struct evhttp_connection *evcon, struct evhttp_request *req)
 		return;
 	}
 	evcon->state = EVCON_READING_BODY;
-	xfer_enc = evhttp_find_header(req->input_headers, "Transfer-Encoding");
 	if (xfer_enc != NULL && evutil_ascii_strcasecmp(xfer_enc, "chunked") == 0) {
 		req->chunked = 1;
 		req->ntoread = -1;
